@@ -1,5 +1,9 @@
 import ZarrsModel.Model.Shard
-/- helper lemmas for C03 (codec inverses, chain composition, shard layout) -/
-namespace Zarrs.Codec
-
-end Zarrs.Codec
+import ZarrsModel.Lemmas.CodecBasic
+import ZarrsModel.Lemmas.CodecTranspose
+import ZarrsModel.Lemmas.CodecShard
+/-
+helper lemmas for C03 (codec inverses, chain composition, shard layout); the proofs live in
+`CodecBasic` (checksum codecs, `bytes`, `shuffle`, chains), `CodecTranspose` (`transpose`) and
+`CodecShard` (`sharding_indexed` layout)
+-/
